@@ -315,37 +315,16 @@ func checkC14(p *Prog, r *Report) {
 	// ---- R14.5 errors end the stream --------------------------------------------
 	r.Rule("R14.5", "After readStreamingPacket reports an error its caller never reads from that stream again (it closes/removes the connection or leaves the loop).", 3)
 	for _, f := range p.AllFuncs {
-		for _, c := range p.CallsTo(f, false, "ice.readStreamingPacket") {
-			g := p.CFG(f)
-			loc, ok := g.Locate(c)
-			if !ok {
-				r.Unknown("reader user "+f.Name, p.Pos(c.Pos()), "call not in CFG")
-				continue
-			}
-			// the read may be repeated only over an edge that established err == nil for this call:
-			// with those edges removed, the call must not be able to reach itself
-			bad := ""
-			okEdge := func(e *Edge) bool {
-				for _, ft := range p.FactsOfCond(e.Cond, e.Val) {
-					if ft.Op == "==" && ft.Val && p.isNilExpr(ft.Y) {
-						if cc, _, ok := p.ResolveCall(f, ft.X); ok && cc == c || p.errOfCall(f, ft.X, c) {
-							return false
-						}
-					}
-				}
-				return true
-			}
-			var starts []*Block
-			for _, e := range loc.B.Succs {
-				if okEdge(e) {
-					starts = append(starts, e.To)
-				}
-			}
-			if reach := g.Reach(starts, okEdge); reach[loc.B] {
-				bad = p.Pos(c.Pos())
-			}
-			r.Check(bad == "", "reader user "+f.Root().Name, p.Pos(c.Pos()), "the read repeats only after err == nil", "the loop can read from the same stream again without having established that the previous read succeeded (e.g. after io.ErrShortBuffer, which leaves the frame body unread): a desynchronised stream yields fabricated packets")
+		cs := p.CallsTo(f, false, "ice.readStreamingPacket")
+		if len(cs) == 0 {
+			continue
 		}
+		bad := p.rereadWithoutSuccess(f, func(c *ast.CallExpr) bool { return p.CalleeName(c) == "ice.readStreamingPacket" })
+		pos := p.Pos(cs[0].Pos())
+		if bad != nil {
+			pos = p.Pos(bad.Pos())
+		}
+		r.Check(bad == nil, "reader user "+f.Root().Name, pos, "the read repeats only after err == nil", "a stream is read again (by this or another readStreamingPacket call) without having established that the previous read succeeded (e.g. after io.ErrShortBuffer, which leaves the frame body unread): a desynchronised stream yields fabricated packets")
 	}
 
 	// ---- R14.6 buffer sizing -----------------------------------------------------
